@@ -28,7 +28,7 @@ def _is_timeout(a):
     return a[0] == 'timeout'
 
 
-def run_schedule(pipe: SimPipeline, rng, steps, *, p_timeout=0.0, p_drop=0.0, quiet=80, faults=None):
+def run_schedule(pipe: SimPipeline, rng, steps, *, p_timeout=0.0, p_drop=0.0, quiet=250, faults=None):
     """Prompt-biased random scheduler: among the enabled non-timeout actions pick one at random; a timeout fires when
     nothing else is enabled, or with probability p_timeout.  Stops after `steps` or `quiet` steps without any publish or
     delivery while every origin is exhausted.  `faults`: list of (step_no, fn(pipe)) injected at given step numbers."""
@@ -46,14 +46,14 @@ def run_schedule(pipe: SimPipeline, rng, steps, *, p_timeout=0.0, p_drop=0.0, qu
             break
         nt = [a for a in acts if not _is_timeout(a)]
         to = [a for a in acts if _is_timeout(a)]
-        if nt and not (to and rng.random() < p_timeout):
+        if nt and not (to and p_timeout and rng.random() < p_timeout):
             a = rng.choice(nt) if rng is not None else nt[0]
             if a[0] == 'dpub' and p_drop and rng.random() < p_drop:
                 a = ('drop', a[1])
         else:
             if not to:
                 break
-            if w.local_clocks:
+            if w.local_clocks and rng is not None:
                 a = rng.choice(to)
             else:
                 a = min(to, key=lambda x: x[1].deadline())
@@ -72,7 +72,7 @@ def run_schedule(pipe: SimPipeline, rng, steps, *, p_timeout=0.0, p_drop=0.0, qu
     return n
 
 
-def finish_prompt(pipe: SimPipeline, rng, steps=400, quiet=60):
+def finish_prompt(pipe: SimPipeline, rng, steps=400, quiet=150):
     return run_schedule(pipe, rng, steps, p_timeout=0.0, quiet=quiet)
 
 
@@ -123,6 +123,119 @@ def run_labels(topo: Topo, labels, rng, finish=200, **pipekw):
     return pipe, r['skipped']
 
 
+def replay_trace(topo, trace, **pipekw):
+    """Re-execute a recorded world trace (actions + fault entries) on a fresh pipeline."""
+    pipe = SimPipeline(topo, **pipekw)
+    w = pipe.world
+    first = True
+    for e in trace:
+        kind = e[0]
+        if kind in ('kill', 'restart', 'stall', 'resume'):
+            {'kill': lambda: pipe.kill(e[1], e[2]), 'restart': lambda: pipe.restart(e[1]),
+             'stall': lambda: pipe.stall(e[1]), 'resume': lambda: pipe.resume(e[1])}[kind]()
+            if kind == 'restart':
+                w.trace.pop()     # restart() performs (and records) the first run of the new task itself
+            continue
+        x = e[1]
+        if kind in ('run', 'timeout'):
+            t = w.tasks.get(x)
+            if t is None or t.enabled_action() != kind:
+                continue
+            pipe.do((kind, t))
+        else:
+            l = w.links[x] if x < len(w.links) else None
+            if l is None or l.dead or (kind != 'est' and not l.queue):
+                continue
+            pipe.do((kind, l))
+    return pipe
+
+
+def replay_witness(ctx, props, judgekw=None):
+    import json
+    w = json.load(open(ctx.replay))
+    how = w['witness']['how']
+    topo = Topo.from_dict(how['topo_def'])
+    ctx.seed = how.get('seed', ctx.seed)
+    pipekw = how.get('pipekw') or {}
+    if how['kind'] == 'labels':
+        pipe, _ = run_labels(topo, [tuple(l) for l in how['labels']], common.rng(ctx, how['origin']), **pipekw)
+    else:
+        pipe = replay_trace(topo, [tuple(t) for t in how['trace']], **pipekw)
+    try:
+        v, errs, _ = judge(topo, pipe, set(props), **(judgekw or how.get('judgekw') or {}))
+        for f, d in pipe.delivered.items():
+            if d:
+                print(f'  {f} was handed: ' + '; '.join(f"id {r['id']} {r['frames']}" for r in d[:10]))
+        for name, text, wit in v:
+            print(f'VIOLATION property={ctx.prop} replay={ctx.replay}')
+            print(f'  {name}: {text}')
+        if not v:
+            print(f'replay of {ctx.replay}: no violation of {sorted(props)} on the current tree')
+        return 1 if v else 0
+    finally:
+        pipe.close()
+
+
+def validate_traces(topo: Topo, traces, timeout=600):
+    """code -> spec: TLC checks that every recorded real execution is a behaviour of OFP (spec/proto/TraceOFP.tla).
+    Returns (TLCResult, accepted: set of trace indices (0-based), reached: {index: events matched})."""
+    import json
+    import re
+    d = tempfile.mkdtemp(prefix='ofptrace_')
+    try:
+        with open(os.path.join(d, 'traces.json'), 'w') as fh:
+            json.dump({'traces': traces}, fh)
+        with ModelDir(topo, modname=f'MCT_{topo.name}') as md:
+            shutil.copy(os.path.join(common.SPEC, 'proto', 'TraceOFP.tla'), md.dir)
+            # the MC module extends TraceOFP instead of OFP
+            mcp = os.path.join(md.dir, md.mod + '.tla')
+            txt = open(mcp).read().replace('EXTENDS OFP', 'EXTENDS TraceOFP')
+            open(mcp, 'w').write(txt)
+            cfg = topo.mc_cfg('TSpec', view=False, invariants=(), constraint='TConstraint', max_faults=100000,
+                              fault_kinds=['kill', 'stall', 'drop'], victims=topo.names)
+            res = md.run('trace', cfg, env={'TRACE_FILE': os.path.join(d, 'traces.json')}, workers=1, timeout=timeout,
+                         dfs_queue=True)
+        if res.error or res.timed_out:
+            raise common.MachineryError(f'TLC trace validation failed on {topo.name}: {res.error or "timeout"}')
+        acc = {int(m) - 1 for m in re.findall(r'<<"ACC", (\d+)>>', res.out)}
+        reached = {}
+        for t, n in re.findall(r'<<"AT", (\d+), (\d+)>>', res.out):
+            reached[int(t) - 1] = max(reached.get(int(t) - 1, 0), int(n))
+        return res, acc, reached
+    finally:
+        shutil.rmtree(d, ignore_errors=True)
+
+
+def binding_selftest(rep, topo, ctx):
+    """The binding is demonstrated, not assumed: a recorded real execution is accepted; the same execution with one logged
+    field corrupted, with one event removed, and with one label changed must each be rejected by TLC."""
+    import copy
+    rng = common.rng(ctx, 'selftest')
+    pipe = SimPipeline(topo, record=True)
+    try:
+        pipe.start()
+        run_schedule(pipe, rng, 300, p_timeout=0.05)
+        good = pipe.rec
+    finally:
+        pipe.close()
+    k = len(good) // 2
+    bad1 = copy.deepcopy(good)
+    f0 = topo.names[0]
+    bad1[k]['ms'][f0] += 1
+    bad2 = copy.deepcopy(good)
+    del bad2[k]
+    bad3 = copy.deepcopy(good)
+    bad3[k]['l'][0] = 'timeout' if bad3[k]['l'][0] != 'timeout' else 'step'
+    res, acc, reached = validate_traces(topo, [good, bad1, bad2, bad3])
+    rep.add_tlc(f'{topo.name}/TraceOFP/selftest', res, 'binding self-test: 1 genuine + 3 corrupted traces')
+    if acc != {0}:
+        raise common.MachineryError(f'trace-validation self-test failed: accepted {sorted(acc)} of [genuine, corrupted field, '
+                                    f'dropped event, changed label]; reached {reached}')
+    rep.extra['binding_selftest'] = {'genuine_accepted': True, 'corrupted_rejected': 3, 'events': len(good),
+                                     'rejected_at': {i: reached.get(i) for i in (1, 2, 3)}}
+    print(f'  [selftest] trace binding: genuine trace accepted, 3 corrupted variants rejected ({res.wall_s}s)', flush=True)
+
+
 class Engine:
     def __init__(self, ctx, rep, props):
         self.ctx, self.rep, self.props = ctx, rep, set(props)
@@ -134,6 +247,7 @@ class Engine:
             res = md.run('mc', topo.mc_cfg(spec, **cfgkw), timeout=timeout)
         nm = name or f'{topo.name}/{spec}' + (f'/{",".join(cfgkw.get("defects", ()))}' if cfgkw.get('defects') else '')
         self.rep.add_tlc(nm, res, 'design has the property' if expect_ok else 'mutated design: counterexample wanted')
+        print(f'  [tlc] {nm}: {res.violated or ("timeout" if res.timed_out else "ok")} {res.distinct} states {res.wall_s}s', flush=True)
         if res.error:
             raise common.MachineryError(f'TLC failed on {nm}: {res.error[-1500:]}')
         if res.timed_out:
@@ -149,6 +263,12 @@ class Engine:
         """For every design mutation: the behaviour on which TLC shows the mutated design violating `invariant`,
         replayed as a schedule on the real code and judged."""
         for mut in mutations:
+            labels = self.mutation_labels(topo, spec, mut, invariant=invariant, timeout=timeout, bounds=bounds, sim=sim, **cfgkw)
+            if labels:
+                self.real_run_labels(topo, labels, origin=f'counterexample of design mutation {mut} ({topo.name}/{spec}, depth {len(labels) + 1})')
+
+    def mutation_labels(self, topo, spec, mut, *, invariant='NoViolation', timeout=600, bounds=None, sim=None, **cfgkw):
+        if True:
             with ModelDir(topo, **(bounds or {})) as md:
                 kw = dict(cfgkw)
                 kw['defects'] = list(kw.get('defects', ())) + [mut]
@@ -159,21 +279,21 @@ class Engine:
                 else:
                     res = md.run('mut', topo.mc_cfg(spec, **kw), timeout=timeout)
             self.rep.add_tlc(f'{topo.name}/{spec}/mut:{mut}', res, 'mutated design: counterexample wanted')
+            print(f'  [tlc] {topo.name}/{spec}/mut:{mut}: {res.violated or ("timeout" if res.timed_out else "no counterexample")} {res.distinct} states {res.wall_s}s', flush=True)
             if res.error:
                 raise common.MachineryError(f'TLC failed on mutation {mut} of {topo.name}: {res.error[-1500:]}')
             if not res.violated:
                 self.rep.note(f'mutation {mut} on {topo.name}/{spec}: no counterexample within bounds ({res.distinct} states)')
-                continue
+                return None
             ce = [s for _, s in common.parse_counterexample(res.out) if 'lbl' in s]
-            labels = [tuple(s['lbl']) for s in ce[1:]]
-            self.real_run_labels(topo, labels, origin=f'counterexample of design mutation {mut} ({topo.name}/{spec}, depth {len(ce)})')
+            return [tuple(s['lbl']) for s in ce[1:]]
 
     def real_run_labels(self, topo, labels, origin, **judgekw):
         rng = common.rng(self.ctx, origin)
         pipe, skipped = run_labels(topo, labels, rng)
         try:
-            self.judge_pipe(topo, pipe, {'kind': 'labels', 'topo': topo.name, 'labels': labels, 'origin': origin},
-                            **judgekw)
+            self.judge_pipe(topo, pipe, {'kind': 'labels', 'topo': topo.name, 'topo_def': topo.to_dict(),
+                                         'seed': self.ctx.seed, 'labels': labels, 'origin': origin}, **judgekw)
         finally:
             pipe.close()
 
@@ -182,7 +302,9 @@ class Engine:
         with ModelDir(topo, **(bounds or {})) as md:
             res, behs = sim_behaviours(md, topo, spec, num, depth, self.ctx.seed + 1, **cfgkw)
         self.rep.add_tlc(f'{topo.name}/{spec}/simulate', res, f'{len(behs)} behaviours for spec->code replay')
+        print(f'  [tlc] {topo.name}/{spec}/simulate: {len(behs)} behaviours {res.wall_s}s', flush=True)
         ndiv = 0
+        t0 = time.time()
         for k, beh in enumerate(behs):
             r = proto.replay(topo, beh)
             pipe = r['pipe']
@@ -194,7 +316,8 @@ class Engine:
                         self.rep.drift_note(f'{topo.name}/{spec} behaviour {k}: real code diverges from the model at step '
                                             f'{r["step"]} {tuple(r["label"])}: {str(r["diff"])[:400]}')
                     finish_prompt(pipe, common.rng(self.ctx, f'drift{k}'), 200)
-                self.judge_pipe(topo, pipe, {'kind': 'labels', 'topo': topo.name, 'labels': labels_of(beh),
+                self.judge_pipe(topo, pipe, {'kind': 'trace', 'topo': topo.name, 'topo_def': topo.to_dict(),
+                                             'seed': self.ctx.seed, 'trace': [list(t) for t in pipe.world.trace],
                                              'origin': f'TLC -simulate behaviour {k} of {topo.name}/{spec}'},
                                 **(judgekw or {}))
                 if k == 0:
@@ -202,29 +325,57 @@ class Engine:
                                      'steps': len(beh), 'conforms': r['ok']})
             finally:
                 pipe.close()
+        print(f'  [replay] {topo.name}/{spec}: {len(behs)} behaviours, {ndiv} diverge, {time.time() - t0:.1f}s', flush=True)
         if ndiv:
             self.rep.note(f'{ndiv}/{len(behs)} replayed behaviours of {topo.name}/{spec} diverge: design-level results do '
                           f'not transfer to this code on those paths')
         return ndiv
 
     # -- 4. random schedules on the real code --------------------------------------------------------------------------------
-    def random_runs(self, topo, n, steps, *, p_timeout=0.05, p_drop=0.0, faults=None, judgekw=None, pipekw=None, tag=''):
+    def random_runs(self, topo, n, steps, *, p_timeout=0.05, p_drop=0.0, faults=None, judgekw=None, pipekw=None, tag='',
+                    validate=0):
+        """`validate`: the first `validate` runs are recorded (label + projection per step) and validated by TLC against
+        the specification (code -> spec); a rejected trace is drift."""
+        t0 = time.time()
+        recorded = []
         for k in range(n):
             rng = common.rng(self.ctx, f'{topo.name}/{tag}/{k}')
-            pipe = SimPipeline(topo, **(pipekw or {}))
+            pipe = SimPipeline(topo, **dict(pipekw or {}, record=k < validate))
             try:
                 pipe.start()
                 fl = faults(rng, pipe) if faults else None
                 run_schedule(pipe, rng, steps, p_timeout=p_timeout, p_drop=p_drop, faults=fl)
-                self.judge_pipe(topo, pipe, {'kind': 'random', 'topo': topo.name, 'tag': tag, 'k': k, 'steps': steps,
-                                             'p_timeout': p_timeout, 'p_drop': p_drop,
-                                             'trace': [list(t) for t in pipe.world.trace[:3000]]},
+                self.judge_pipe(topo, pipe, {'kind': 'trace', 'topo': topo.name, 'topo_def': topo.to_dict(),
+                                             'seed': self.ctx.seed, 'origin': f'random schedule {tag}/{k}',
+                                             'pipekw': pipekw or {}, 'trace': [list(t) for t in pipe.world.trace]},
                                 **(judgekw or {}))
+                if pipe.rec is not None:
+                    recorded.append(pipe.rec)
             finally:
                 pipe.close()
+        print(f'  [random] {topo.name}/{tag}: {n} runs {time.time() - t0:.1f}s', flush=True)
+        if recorded:
+            self.validate(topo, recorded, f'{tag} random schedules')
+
+    def validate(self, topo, recorded, what):
+        res, acc, reached = validate_traces(topo, recorded)
+        self.rep.add_tlc(f'{topo.name}/TraceOFP', res, f'code->spec validation of {len(recorded)} recorded real executions')
+        nev = sum(len(r) for r in recorded)
+        self.rep.traces += len(acc)
+        self.rep.extra['trace_events_validated'] = self.rep.extra.get('trace_events_validated', 0) + sum(len(recorded[i]) for i in acc)
+        print(f'  [trace] {topo.name}: {len(acc)}/{len(recorded)} recorded executions ({nev} events) accepted by TLC {res.wall_s}s', flush=True)
+        for i in range(len(recorded)):
+            if i not in acc:
+                at = reached.get(i, 0)
+                ev = recorded[i][at] if at < len(recorded[i]) else None
+                self.rep.drift_note(f'{topo.name}: recorded execution {i} of {what} is not a behaviour of the specification: '
+                                    f'{at} of {len(recorded[i])} events matched; rejected event: {str(ev)[:300]}')
+        if recorded and 0 in acc:
+            self.rep.sample({'validated_trace_first_events': recorded[0][:3], 'topology': topo.name, 'events': len(recorded[0])}, 8)
 
     # -- verdicts -------------------------------------------------------------------------------------------------------------
     def judge_pipe(self, topo, pipe, how, c03=False, complete=False, lazy=False, extra=None):
+        how['judgekw'] = dict(c03=c03, complete=complete, lazy=lazy)
         v, errs, plog = judge(topo, pipe, self.props, c03=c03, complete=complete, lazy=lazy)
         if extra:
             v += [x for x in extra(topo, pipe, plog) if x[0] in self.props]
